@@ -24,7 +24,7 @@ PY
 rm -f $OUT/verify.json
 git apply $OUT/patch.diff || { res $OUT/verify.json patch_applies no; exit 1; }
 res $OUT/verify.json patch_applies yes
-cargo test --workspace --no-fail-fast --offline > $OUT/suite.log 2>&1
+cargo test ${SUITE_ARGS:---workspace} --no-fail-fast --offline > $OUT/suite.log 2>&1; res $OUT/verify.json suite_args "${SUITE_ARGS:---workspace}"
 if grep -q "^error\(\[E[0-9]*\]\)\?:" $OUT/suite.log && ! grep -q "test result" $OUT/suite.log; then res $OUT/verify.json compiles no; exit 1; fi
 if grep -E "^error(\[E[0-9]+\])?: " $OUT/suite.log | grep -vq "test failed\|targets failed"; then res $OUT/verify.json compiles "no: $(grep -E '^error' $OUT/suite.log | grep -v 'test failed\|targets failed' | head -3 | tr '\n' ' ')"; exit 1; fi
 res $OUT/verify.json compiles yes
